@@ -1054,6 +1054,13 @@ def compare(out, tag, klass, res, ref, info):
 
 # ----------------------------------------------------------------------------- interpreter
 
+def _degenerate_scale(v):
+    if not isq(v) or v.is_meta:
+        return False
+    sc = getattr(v, "_scale", None)
+    return isinstance(sc, torch.Tensor) and not sc.is_meta and sc.numel() > 0 and not bool((torch.isfinite(sc) & (sc != 0)).all())
+
+
 def _clone_keeping_expansion(cur, v):
     """independent copy of `cur` that keeps the expanded (stride 0) dimensions of v: an in-place write that torch refuses on v
     must stay refused on its twin"""
@@ -1133,6 +1140,11 @@ def run_program(case, mode, out=None):
         if not any(isq(o) for o in operands):
             stats["skipped"] += 1  # nothing quantized involved: not a statement about quanto
             continue
+        if any(_degenerate_scale(o) for o in operands):
+            # an operand whose scale has left the positive range of its dtype (overflowed to inf, underflowed to 0 after
+            # repeated rescaling): it denotes inf / nan / 0 everywhere, the program is outside the domain of representable values
+            stats["degenerate_operand"] = stats.get("degenerate_operand", 0) + 1
+            continue
         f = r["f"]
         klass = r["klass"]
         kinds = "+".join(kind_key(o) for o in operands)
@@ -1149,6 +1161,12 @@ def run_program(case, mode, out=None):
         ref = cut(f, *dops)
         if isinstance(ref, Raised):
             stats["float_invalid"] += 1
+            continue
+        if klass == "rescale" and isinstance(ref, torch.Tensor) and ref.dtype.is_floating_point and not bool(torch.isfinite(ref).all()) \
+                and all(bool(torch.isfinite(d_).all()) for d_ in dops if isinstance(d_, torch.Tensor) and d_.dtype.is_floating_point):
+            # a rescaling whose FLOAT result leaves the dtype's range (x * 1e3 * 1e3 in float16): the program is outside the domain
+            # where values are representable (a quantized tensor whose scale overflowed denotes inf / nan everywhere)
+            stats["float_overflow"] = stats.get("float_overflow", 0) + 1
             continue
         if r.get("stride_sensitive"):
             sops = [strided_twin(o) if isq(o) else o for o in operands]
@@ -1234,6 +1252,9 @@ def run_program(case, mode, out=None):
                     out.fail("copy_/operands-sharing-payload/raises", f"float program valid but quantized program raises {res.type}: {res.text}")
                 else:
                     out.fail(f"{tag}/raises:{res.type}", f"float program valid but quantized program raises {res.type}: {res.text}")
+            continue
+        if any(_degenerate_scale(x_) for x_ in (list(res) if isinstance(res, (list, tuple)) else [res])):
+            stats["degenerate_result"] = stats.get("degenerate_result", 0) + 1  # (see above; an in-place destination stays in the pool and is skipped from now on)
             continue
         if mode == "c05":
             n0 = len(out.failures)
